@@ -34,6 +34,9 @@ class C16(Prop):
         for _ in range(n):
             t = gt.tree(rng, depth=rng.choice([1, 2, 2, 3]), width=rng.choice([2, 3, 4]),
                         kinds="nbisslt", allow_empty=True)
+            if rng.random() < 0.1:
+                # the library's own default tree (class-valued and escape-bearing leaves left out)
+                t = merge_py(real_defaults(), {k: v for k, v in t.items() if k not in ("run", "sudo", "tasks", "timeouts")})
             prefix = rng.choice(["invoke", "invoke", "my_app", "X", ""])
             eff = prefix.upper() + "_"
             names = ["_".join(p).upper() for p, _ in gt.leaf_paths(t)]
@@ -160,6 +163,14 @@ class C16(Prop):
             else:
                 env["INVOKE_" + rng.choice(["A", "A_B", "B"])] = rng.choice(VALUES)
             yield dict(case, env=env)
+
+
+def real_defaults():
+    from invoke.config import Config
+    d = gt.deep_view(Config.global_defaults())
+    d.pop("runners", None)
+    d["run"]["echo_format"] = "{command}"
+    return d
 
 
 def overlay(rng, base):
